@@ -80,6 +80,8 @@ type World struct {
 	// root's node stands in): what keeps mutations from being executed is then the schema alone
 	LendQuery bool
 	onResolve func(id, field string)
+	// Strange: this node is handed out as a value of a Go type no GraphQL type is bound to (reflection strategy)
+	Strange string
 	// MapNodes: the Resolver objects are values of named map types (one per object type), registered with RegisterType
 	MapNodes bool
 }
@@ -464,6 +466,10 @@ func (w *World) node(id string) interface{} {
 			n = wrapNode{}
 		}
 	case Refl:
+		if id == w.Strange && id != "" {
+			n = &refluni.Stranger{ID: id}
+			break
+		}
 		if w.Binding == BindRegisterLate {
 			n = refluni.NewAlt(w, w.U.NodeType[id], id)
 		} else {
@@ -610,7 +616,10 @@ func (w *World) resolveVia(via, id string, field *ggql.Field, args map[string]in
 		return b.String(), nil
 	}
 	if v.K == "err" {
-		return nil, fmt.Errorf("%s", v.S)
+		// an application error that carries extensions of Go types GraphQL has none for (a slice of strings with a quote
+		// and a line break in one of them, a small integer, a typed map): they are part of the response and must be JSON
+		return nil, &ggql.Error{Base: fmt.Errorf("%s", v.S), Extensions: map[string]interface{}{
+			"tags": []string{"plain", "qu\"ote\nline"}, "code": int8(3), "more": map[string]string{"k\"": "v\\"}}}
 	}
 	if v.K == "errval" { // a resolver returning a value together with an error
 		return v.S, fmt.Errorf("failed after producing %s", v.S)
